@@ -46,7 +46,8 @@ PARTIAL = (
 EXHAUSTIVE = False
 TRUSTED = ["harness/props/c16.py: canonical-argument table per class, value encoding (functions and objects by registry id)"]
 
-K4_IDENTITY = {"site": "skcriteria/utils/unames.py unique_names", "input": "a repeated name n together with an existing name n_k"}
+# K4 (unique_names(['foo','foo','foo_1']) collided) was repaired in /repo (F14, status fixed): a duplicated step name is a
+# plain property violation; the two inputs that showed it stay in corpus/C16/.
 
 
 def extract(ctx):
@@ -1354,7 +1355,7 @@ def requests(case, obs):
 
 
 def _k4_shape(names):
-    """the known defect: a repeated name n together with an existing (once-occurring) name n_k, 1 <= k <= count(n)"""
+    """the clash: a repeated name n together with an existing (once-occurring) name n_k, 1 <= k <= count(n)"""
     from collections import Counter
 
     cnt = Counter(names)
@@ -1387,7 +1388,8 @@ def judge(case, obs, replies):
         if len(names) != len(inp) or not all(x is True for x in obs["elements_in_order"]):
             prop("unique_names does not pair the i-th element with the i-th name", inp, names)
         if len(set(names)) != len(names):
-            prop("generated step names are not unique", {"input": inp}, names, identity=K4_IDENTITY if _k4_shape(inp) else None)
+            prop("generated step names are not unique" + (" (a repeated name n next to an existing name n_k)" if _k4_shape(inp) else ""),
+                 {"input": inp}, names)
         elif not all(x is True for x in obs["resolves"]):
             prop("a generated name does not resolve to its own element", inp, obs["resolves"])
         if obs.get("mismatch_err", "ValueError") != "ValueError":
@@ -1395,10 +1397,10 @@ def judge(case, obs, replies):
         r = replies[0]
         if r.get("names") != names:
             corr("unique_names: model vs implementation", r.get("names"), names)
-        if r.get("spec") != r.get("names"):
-            corr("unique_names: the model's loop differs from its closed form", r.get("spec"), r.get("names"))
-        if r.get("noclash") and len(set(names)) != len(names):
-            corr("NoSuffixClash holds in the model but the implementation's names collide", inp, names)
+        if r.get("noclash") and r.get("spec") != names:
+            corr("unique_names: no clash, but the names are not the closed form n_1, n_2, ...", r.get("spec"), names)
+        if r.get("noclash") != (not _k4_shape(inp)):
+            corr("NoSuffixClash: model predicate vs its reading in Python", not _k4_shape(inp), r.get("noclash"))
         return out
 
     if kind == "trace":
@@ -1488,7 +1490,7 @@ def judge(case, obs, replies):
         names = obs["names"]
         inp = obs["lnames"]
         if len(set(names)) != len(names):
-            prop("mkpipe: step names are not unique", {"input": inp}, names, identity=K4_IDENTITY if _k4_shape(inp) else None)
+            prop("mkpipe: step names are not unique", {"input": inp}, names)
         else:
             if not all(x is True for x in obs["named_is"]):
                 prop("mkpipe: named_steps[name] / pipe[name] is not the step the name was generated for", names, obs["named_is"])
